@@ -246,6 +246,9 @@ VERUS = {
     'set': dict(props=['C07', 'C11'], tier='quick',
                 desc='HashSet set algebra on extracted text over an abstract view (the mathematical set of elements plus the duplicate-free order in which the iterator yields them; contains / len as specified by C01): Intersection::next and Difference::next (the next element of the driving set that is / is not in the other set, everything skipped is not / is), the constructors difference, intersection (whichever set is smaller drives: exactly A n B), union (one set in full, then the rest of the other: exactly A u B, nothing twice), symmetric_difference (exactly the elements in one set only, nothing twice), and is_subset / is_superset / is_disjoint equal the mathematical predicates, including the length pre-check of is_subset (cardinality lemma); HashSet::eq is equality of the element sets and HashMap::eq holds exactly when both maps have the same keys with values that compare equal (for a value type whose == meets its specification), whatever the layout, capacity, history or hasher',
                 paired={}),
+    'serde': dict(props=['C20'], tier='quick',
+                  desc='the serde visitors on extracted text (MapVisitor::visit_map, SeqVisitor::visit_seq, the in-place SeqInPlaceVisitor::visit_seq, size_hint::cautious) over an ARBITRARY input: any sequence of entries that ends or fails at some position, with an arbitrary (lying) size hint: the pre-allocation request never exceeds 4096 whatever the hint claims (obligation of with_capacity / reserve), every entry is inserted in order (a repeated key keeps its last value), the in-place form first empties the target, an input error is passed on and nothing else produces one; the loops terminate',
+                  paired={}),
     'alloc': dict(props=['C12', 'C08', 'C02'], tier='quick',
                   desc='the allocation path on extracted text: new_uninitialized (against the contracts of calculate_layout_for and of the allocator call: the control pointer block + ctrl_offset stays inside the block, buckets + WIDTH control bytes follow it, bucket_mask = buckets - 1 < 2^62, growth_left = capacity), fallible_with_capacity (capacity 0 gives the unallocated singleton, otherwise a table with the minimal admissible bucket count, every control byte EMPTY, nothing stored, whole capacity available) and prepare_resize (the same, which is the contract unit resize assumes); every error return happens in fallible mode only',
                   paired={}),
